@@ -5,5 +5,5 @@ CONSTANTS
   Mode = "agree"
   Fams = {"all", "live", "exact", "short"}
   Muts = {"none", "dup", "unknown-voter", "wrongkey", "badsig", "claim-missing", "expel-unknown-target", "expel-unknown-signer", "expel-wrongkey-signer", "expired", "dup-expel"}
-INVARIANTS AgreePlainPlain AgreeExpelWithinF ClosedMatchesExplicit
+INVARIANTS AgreePlainPlain AgreeExpelWithinF ClosedMatchesExplicit OrbitRepresents OrbitOverlapMinimal
 CHECK_DEADLOCK FALSE
